@@ -13,12 +13,6 @@ import FcProps.KTiePS
 namespace Fc
 open Rs Src
 
-/-- the model outcome a returned `Poll<Option<Vec<Item>>>` (a row) stands for -/
-def outcomeOfZip : Rs.Poll (Option (List Nat)) → Outcome
-  | .pending => .pending
-  | .ready none => .none
-  | .ready (some row) => .some 0 row
-
 namespace TieZipV
 open ZipV
 
